@@ -27,6 +27,9 @@ props! {
     "C04" => c04,
     "C05" => c05,
     "C06" => c06,
+    "C07" => c07,
+    "C08" => c08,
+    "C09" => c09,
     "C11" => c11,
     "C13" => c13,
     "C14" => c14,
